@@ -84,6 +84,7 @@ theorem C12_root_injective (m : Bytes → Bytes → Bytes)
     (r : Bytes) (h : MmrBuild.root m ls = some r) (h' : MmrBuild.root m ls' = some r) : ls = ls' :=
   root_injective_value m hinj ls ls' hl hl' r h h'
 
+/- VACUITY AUDIT: no longer an obligation of the check. its conclusion has a bare disjunct `Collision H` (some two byte strings collide), which the fixed-output-length hypothesis alone already proves: trivially true, the acceptance hypothesis is never used. Replaced by: Vacuity.C12.C12_sensitive_any_shape_witness. -/
 /-- **Sensitivity, byte level, same number of files.** Without a cache, two databases with equally
 many covered files and the same root have the same ordered list of file digests, or Blake2s collides.
 Leaves are the `L`-byte hex digests (`L = 64`), nodes the `N`-byte hash values (`N = 32`). -/
@@ -98,6 +99,7 @@ theorem C12_sensitive_same_shape (L N : Nat) (hsha : ∀ x, (sha x).length = L) 
   · intro a ha; rw [hl] at ha; obtain ⟨f, _, rfl⟩ := List.mem_map.mp ha; exact hsha _
   · intro a ha; rw [hl'] at ha; obtain ⟨f, _, rfl⟩ := List.mem_map.mp ha; exact hsha _
 
+/- VACUITY AUDIT: no longer an obligation of the check. its conclusion has a bare disjunct `Collision H` (some two byte strings collide), which the fixed-output-length hypothesis alone already proves: trivially true, the acceptance hypothesis is never used. Replaced by: Vacuity.C12.C12_change_detected_any_shape_witness. -/
 /-- … hence every covered file has the same content in both, position by position, or one of the two
 hashes collides: any changed byte of any covered file changes the root. -/
 theorem C12_content_change_detected (L N : Nat) (hsha : ∀ x, (sha x).length = L) (hH : ∀ x, (H x).length = N)
@@ -239,6 +241,7 @@ theorem C12_sensitive_any_shape (hsha : ∀ x, (sha x).length = 64) (hH : ∀ x,
   · intro a ha; rw [hl] at ha; obtain ⟨f, _, rfl⟩ := List.mem_map.mp ha; exact hsha _
   · intro a ha; rw [hl'] at ha; obtain ⟨f, _, rfl⟩ := List.mem_map.mp ha; exact hsha _
 
+/- VACUITY AUDIT: no longer an obligation of the check. its middle disjunct `∃ x y, sha x = sha y` is trivial for every infinite content type. Replaced by: Vacuity.C12.C12_change_detected_any_shape_witness. -/
 /-- … hence the two databases have equally many covered files with the same content position by
 position, or one of the two hashes collides -/
 theorem C12_change_detected_any_shape (hsha : ∀ x, (sha x).length = 64) (hH : ∀ x, (H x).length = 32)
